@@ -13,7 +13,7 @@ def cfg_str(cfg):
 
 def run_model(exe, cases, cmd="hist"):
     lines = ["%s %s %s" % (cmd, cfg_str(cfg), " ".join(ev)) for _, cfg, ev in cases]
-    res, crashes = vlib.run_lines(exe, lines)
+    res, crashes = vlib.run_lines(exe, lines, shards=min(vlib.NPROC, max(1, len(lines) // 40)))
     return [r.split() for r in res], crashes
 
 
@@ -21,18 +21,21 @@ def clean(exe, cases):
     """drop events the model calls ill-formed (writes on connections the daemon has already closed, ...)"""
     cases = [(n, c, list(ev)) for n, c, ev in cases]
     removed = 0
-    for _ in range(40):
-        toks, _ = run_model(exe, cases)
-        dirty = False
-        for (n, c, ev), t in zip(cases, toks):
+    todo = list(range(len(cases)))
+    for _ in range(60):
+        if not todo:
+            break
+        toks, _ = run_model(exe, [cases[i] for i in todo])
+        nxt = []
+        for i, t in zip(todo, toks):
+            n, c, ev = cases[i]
             if "!!" in t:
-                raise RuntimeError("model set its fault flag on a well-formed event: %s %s -> %s" % (c, " ".join(ev), " ".join(t)))
+                raise RuntimeError("model set its fault flag on a well-formed event: %s %s -> %s" % (c, " ".join(ev)[:2000], " ".join(t)))
             if "!" in t:
                 del ev[t.index("!")]
                 removed += 1
-                dirty = True
-        if not dirty:
-            break
+                nxt.append(i)
+        todo = nxt
     return cases, removed
 
 
@@ -178,7 +181,8 @@ def oracle(cfg, events, toks, notes):
         if int(before) != 0:
             bad.append((-1, "daemon was %s descriptors away from its baseline when the history started" % before))
     for x in notes.get("id_bad", []):
-        bad.append((len(events), x))
+        bad.append(tuple(x) if isinstance(x, (tuple, list)) else (len(events), x))
+    bad.sort(key=lambda b: (b[0] if b[0] >= 0 else len(events) + 1))
     return bad
 
 
